@@ -81,6 +81,9 @@ int ags_minimize(unsigned n, nlopt_func func, void *data, unsigned m, nlopt_cons
     return NLOPT_FAILURE;
   }
 
+  if (nlopt_stop_forced(stop)) // the solver may have stopped for a reason of its own in the same iteration
+    ret_code = NLOPT_FORCED_STOP;
+
   if (ags_verbose)
   {
     auto calcCounters = solver.GetCalculationsStatistics();
@@ -105,7 +108,10 @@ int ags_minimize(unsigned n, nlopt_func func, void *data, unsigned m, nlopt_cons
     *minf = optPoint.g[optPoint.idx];
   }
   else //feasible point not found.
-    return NLOPT_FAILURE;
+    return ret_code == NLOPT_FORCED_STOP ? NLOPT_FORCED_STOP : NLOPT_FAILURE;
+
+  if (ret_code == NLOPT_FORCED_STOP)
+    return ret_code;
 
   if (solver.GetCalculationsStatistics()[0] >= params.itersLimit)
     return NLOPT_MAXEVAL_REACHED;
